@@ -9,6 +9,7 @@
 import BurrowVerif.Proofs.Tmpl
 import BurrowVerif.Proofs.TmplData
 import BurrowVerif.Model.Json
+import BurrowVerif.Proofs.TmplDataJson
 
 namespace Burrow.Props.C20
 open Burrow Burrow.Tmpl Burrow.Spec.Tmpl Burrow.Generated
@@ -84,6 +85,88 @@ def samplePart : Group.PStat :=
 def sampleNotification : Notification :=
   { id := "i", start := 0, extras := [("app", "x")], cluster := "c", group := "g",
     result := { status := .err, complete := (1, 2), totalPartitions := 2, maxlag := none, totalLag := 7, partitions := [samplePart] } }
+
+/-! ### the JSON clause -/
+
+/-- the shipped templates whose output is posted as JSON -/
+def jsonTemplates : List (String × T) := shippedTemplates.filter fun nt => nt.1 != "default-email.tmpl"
+
+theorem json_templates_are_http_and_slack :
+    jsonTemplates.map Prod.fst = ["default-http-delete.tmpl", "default-http-post.tmpl",
+      "default-slack-delete.tmpl", "default-slack-post.tmpl"] := by decide
+
+set_option maxRecDepth 16384 in
+/-- Read as JSON with typed holes, every shipped HTTP and Slack template is a complete JSON text:
+    each action stands either inside a string and prints JSON-safe characters, or where a value is
+    expected and prints a number or the `jsonencoder` rendering; both branches of the `if` end in
+    the same place. -/
+theorem shipped_json_templates_flow :
+    ∀ nt ∈ jsonTemplates, jsonOk (refine dataSchema) nt.2 dataType = true := by decide
+
+/-- **The JSON clause of C20.**  For every value of the data type whose strings are JSON-safe (and
+    whose completeness values are finite floats), whatever each shipped HTTP or Slack template
+    renders is well-formed JSON — under the stated assumptions about Go's own renderers
+    (`EnvOk`: `time.Format` output is JSON-safe, `%v` of a finite float32 is a JSON number,
+    `json.Marshal` output is a JSON text), which every run validates on the real renderings. -/
+theorem shipped_json_templates_wellformed (env : Env) (henv : EnvOk env) (v : Val)
+    (hv : HasTy (refine dataSchema) v dataType) (hs : SafeVal v) :
+    ∀ nt ∈ jsonTemplates, ∃ out, exec (refine dataSchema) env nt.2 v = .ok out ∧ Json.valid out = true := by
+  intro nt hnt
+  have hmem : nt ∈ shippedTemplates := (List.mem_filter.mp hnt).1
+  obtain ⟨out, hout⟩ := shipped_templates_render env v hv nt hmem
+  exact ⟨out, hout, json_sound refined_schema_wf henv (shipped_json_templates_flow nt hnt) hv hs hout⟩
+
+/-- … composed with the evaluator: for every group evaluation and every notification around it with
+    JSON-safe names, the HTTP and Slack payloads, open and close, are well-formed JSON. -/
+theorem every_status_renders_json (meets : Nat → Nat → Bool) (now : Int) (allowed : Nat)
+    (topics : List (String × List Eval.Partition)) (g : Group.GroupStatus)
+    (h : Group.evaluateGroup meets now allowed topics = some g)
+    (o : Opaque) (id cluster group : String) (start : Int) (extras : List (String × String)) (env : Env)
+    (henv : EnvOk env)
+    (hsafe : Proofs.TmplData.SafeNotification o { id, start, extras, cluster, group, result := Group.filterView g }) :
+    ∀ nt ∈ jsonTemplates, ∃ out,
+      exec (refine dataSchema) env nt.2
+        (dataVal o { id, start, extras, cluster, group, result := Group.filterView g }) = .ok out ∧
+      Json.valid out = true :=
+  shipped_json_templates_wellformed env henv _
+    (Proofs.TmplData.dataTy o _ (notifier_view_meets_invariant meets now allowed topics g h))
+    (Proofs.TmplData.dataSafe o _ hsafe)
+
+/-- The flow analysis is not a rubber stamp: a hole outside a string that prints a name is refused … -/
+example : jsonOk (refine dataSchema)
+    (.text "{\"group\":" (.action [.field [] "Group" []] (.text "}" .done))) dataType = false := by decide
+
+set_option maxRecDepth 16384 in
+/-- … and "JSON-safe names" is needed: with a quote in the group name the Slack template's output is
+    not JSON (on the model; the `tmpl` stream shows the same on the real renderer). -/
+example : (shippedTemplates.lookup "default-slack-post.tmpl").map (fun t =>
+    match exec (refine dataSchema) ⟨fun _ _ => "T", fun _ => "0.5", "[]"⟩ t
+      (dataVal ⟨fun _ => 0, fun _ => 0⟩ { sampleNotification with group := "a\"b" }) with
+    | .ok out => Json.valid out
+    | _ => true) = some false := by decide
+
+/-- the assumptions on Go's renderers are satisfiable (a constant environment meets them) … -/
+theorem sampleEnvOk : EnvOk ⟨fun _ _ => "T", fun _ => "0.5", "[]"⟩ where
+  time := fun _ _ => by show safeStr "T" = true; decide
+  floatSafe := fun _ _ => by show safeStr "0.5" = true; decide
+  floatNum := fun _ σ _ => ⟨.frac, Or.inr (Or.inr (Or.inl rfl)), by
+    show Json.run _ "0.5".toList = _
+    rw [show "0.5".toList = ['0', '.', '5'] from by decide]; rfl⟩
+  parts := by decide
+
+/-- … and the sample notification is JSON-safe, so the JSON theorem applies to it. -/
+example : Proofs.TmplData.SafeNotification ⟨fun _ => 0, fun _ => 0⟩ sampleNotification where
+  id := by decide
+  cluster := by decide
+  group := by decide
+  extras := by decide
+  parts := by
+    intro p hp
+    simp [sampleNotification] at hp
+    subst hp
+    exact ⟨by decide, by decide, by decide⟩
+  maxlag := by intro p hp; simp [sampleNotification] at hp
+  floats := fun _ => by show finite32 0 = true; decide
 
 /-- … non-vacuity: it meets the invariant, so it inhabits the refined type, and the first shipped
     template renders on it. -/
